@@ -1,7 +1,8 @@
 #!/bin/bash
-# runs every drill (reverted fixes + hand-written mutations listed in drills/mutations.txt + seeded changes) against its property's quick check
+# runs every drill (reverted fixes + hand-written mutations listed in drills/mutations.txt + seeded changes) against the quick
+# check that is recorded as detecting it; DRILL_JOBS drills at a time (default 3)
 cd "$(dirname "$(readlink -f "$0")")/.."
-{ cat drills/reverts.txt; cat drills/mutations.txt 2>/dev/null; for d in seeded/*/; do p=$(python3 -c "import json;print(json.load(open('$d/meta.json'))['detected_by']['check'])"); echo "$d/patch.diff $p"; done; } | while read f p; do
-  [ -z "$f" ] && continue; grep -q "^$f " drills/neutral.txt && { echo "DRILL $f $p: NEUTRAL (skipped)"; continue; }
-  DRILL_SKIP_SUITE=1 drills/run.sh "$f" "$p" ${DRILL_TIER:-quick} 2>&1 | grep '^DRILL' | sed "s|patch.diff|$f|"
-done
+{ cat drills/reverts.txt; cat drills/mutations.txt 2>/dev/null; for d in seeded/*/; do p=$(python3 -c "import json;print(json.load(open('$d/meta.json'))['detected_by']['check'])"); echo "$d/patch.diff $p"; done; } | grep -v '^$' | while read f p; do
+  if grep -q "^$f " drills/neutral.txt; then echo "DRILL $f $p: NEUTRAL (skipped)"; else echo "$f $p"; fi
+done | grep -v '^DRILL' | xargs -P ${DRILL_JOBS:-3} -L 1 bash -c 'DRILL_SKIP_SUITE=1 drills/run.sh "$0" "$1" ${DRILL_TIER:-quick} 2>&1 | grep "^DRILL" | sed "s|patch.diff|$0|"'
+grep -c . drills/neutral.txt | sed 's/$/ drills are listed as neutral (drills\/neutral.txt)/'
